@@ -17,6 +17,8 @@ pub mod file_identity;
 mod identity;
 mod origin;
 mod paths;
+#[cfg(sos_verif)]
+pub mod verif;
 
 pub use account::AccountId;
 // pub use crypto::*;
